@@ -293,6 +293,10 @@ pub fn call_ld_bytes(e: &mut Emu, a: u8, carry: bool, ix: u16, de: u16, sp: u16,
     st.sp = sp.wrapping_sub(2);
     st.halted = false;
     st.no_sample = false;
+    // the caller has interrupts disabled (otherwise the ROM's frame interrupt could run before the
+    // routine's own DI and touch system variables)
+    st.iff1 = false;
+    st.iff2 = false;
     st.to_impl(e.verif_cpu());
     write_mem(e, sp.wrapping_sub(2), &ret.to_le_bytes());
     run_until_pc(e, ret, max_frames)
